@@ -84,6 +84,8 @@ def gen_params(r):
     x = r.random()
     if x < 0.15:
         base = 0.0
+    elif x < 0.22:
+        base = r.choice([5e-324, 1e-320, 1e-310, 1e-300, 1e-200, 1e-100, 1e-30, 1e-9])   # tiny / subnormal
     elif x < 0.5:
         base = r.choice([0.001, 0.01, 0.1, 0.25, 0.5, 1.0])
     else:
